@@ -458,11 +458,24 @@ def _eval_unc(case, cache):
 _ENGINE = None
 
 
+class _NoEngine(Exception):
+    pass
+
+
 def _engine():
+    """The Euler engine on a fresh build of the working tree.  run() creates it in the parent so that the
+    forked workers inherit the loaded library (the build cache may be pruned by concurrent runs)."""
     global _ENGINE
     if _ENGINE is None:
         from mc import eng
-        _ENGINE = eng.make_engine("euler")
+        try:
+            try:
+                _ENGINE = eng.make_engine("euler")
+            except OSError:
+                eng._paths.clear()          # cached build removed meanwhile: build again
+                _ENGINE = eng.make_engine("euler")
+        except Exception as e:
+            raise _NoEngine("%s: %s" % (type(e).__name__, e))
     return _ENGINE
 
 
@@ -495,9 +508,13 @@ def _eval_simcg(case, cache):
     det = _drop_detail(m, env)
     info["drop_detail"] = det
     script = _script(system, 0.001)
+    try:
+        engine = _engine()
+    except _NoEngine as e:
+        return [("C16:checker:engine-unavailable", str(e))], info
     info["transitions"] = 1
     try:
-        res = simulate_script(script, _engine(), cgmap=list(m))
+        res = simulate_script(script, engine, cgmap=list(m))
     except Exception as e:
         out.append(("C16:%s:valid-map-rejected:%s:%s" % (site, det, type(e).__name__),
                     "cgmap %s (environments %s) is valid but simulate_script raised %s: %s"
@@ -506,7 +523,7 @@ def _eval_simcg(case, cache):
     try:
         cgscript = script.copy()
         cgscript.system = coarsegrain_system(system, list(m))
-        cgout = simulate_script(cgscript, _engine())
+        cgout = simulate_script(cgscript, engine)
         info["transitions"] += 2
         fine = _si_array(res.data, (0, 0, 1), site, "data")
         coarse = _si_array(cgout.data, (0, 0, 1), site, "coarse-data")
@@ -535,7 +552,11 @@ def _eval_ident(case, cache):
     (system, ref), fp, key = _get_system(case, None)
     script = _script(system, 0.01)
     try:
-        plain = simulate_script(script, _engine())
+        engine = _engine()
+    except _NoEngine as e:
+        return [("C16:checker:engine-unavailable", str(e))], info
+    try:
+        plain = simulate_script(script, engine)
         info["transitions"] = 1
         a = _si_array(plain.data, (0, 0, 1), site, "plain-data")
     except _Bad as b:
@@ -544,7 +565,7 @@ def _eval_ident(case, cache):
         info["plain_failed"] = 1
         return [("C16:%s:plain-simulation-failed" % site, "%s: %s" % (type(e).__name__, e))], info
     try:
-        idn = simulate_script(script, _engine(), cgmap=list(range(n)))
+        idn = simulate_script(script, engine, cgmap=list(range(n)))
         info["transitions"] = 2
         b_ = _si_array(idn.data, (0, 0, 1), site, "data")
         if len(a) != NS_SIM * S * n or len(b_) != len(a):
@@ -698,19 +719,21 @@ def _spaces(tier):
     if T:
         sp.append(_sp("cg 2-D 3x2: all maps {-1..2}^6 x 3 environment maps x 2 non-default unit configurations",
                       "cg", (3, 2, 1), _labels(2), units=(1, 2)))
-        sp.append(_sp("cg 3-D 2x2x2: all maps {-1,0,1}^8 x 3 environment maps x 2 non-default unit configurations",
-                      "cg", (2, 2, 2), _labels(1), units=(1, 2)))
+        sp.append(_sp("cg 3-D 2x2x2: all maps {-1,0,1}^8, 3-environment map x 2 non-default unit configurations",
+                      "cg", (2, 2, 2), _labels(1), envs=("three",), units=(1, 2)))
     else:
         sp.append(_sp("cg 3-D 2x2x2: all maps {-1,0}^8 x 3 environment maps x 2 non-default unit configurations",
                       "cg", (2, 2, 2), _labels(0), units=(1, 2)))
     # -- uncoarsegrain_trajectory on hand-built coarse trajectories (valid maps of the enumerated set) ------------
-    unc = [((3, 1, 1), 2), ((4, 1, 1), 3), ((2, 2, 1), 3), ((3, 2, 1), 2), ((2, 2, 2), 1)]
+    unc = [((3, 1, 1), 2, (0, 1)), ((4, 1, 1), 3, (0, 1)), ((2, 2, 1), 3, (0, 1)), ((3, 2, 1), 2, (0, 1)),
+           ((2, 2, 2), 1, (0, 1))]
     if T:
-        unc += [((5, 1, 1), 4), ((3, 3, 1), 1), ((2, 2, 2), 2)]
-    for g, mx in unc:
+        unc += [((5, 1, 1), 4, (0, 1)), ((3, 3, 1), 1, (0, 1)), ((2, 2, 2), 2, (0,))]
+    for g, mx, dus in unc:
         n = g[0] * g[1] * g[2]
-        sp.append(_sp("unc %dx%dx%d: valid maps among {-1..%d}^%d x {uniform, 2 environments} x data in {molecule, pmol}"
-                      % (g + (mx, n)), "unc", g, _labels(mx), envs=("uniform", "two"), data_units=(0, 1)))
+        sp.append(_sp("unc %dx%dx%d: valid maps among {-1..%d}^%d x {uniform, 2 environments} x data in {%s}"
+                      % (g + (mx, n, ", ".join(DATA_UNITS[k] for k in dus))), "unc", g, _labels(mx),
+                      envs=("uniform", "two"), data_units=dus))
     # -- simulated coarse trajectories ---------------------------------------------------------------------------
     E3N = ("uniform", "two", "three")
     simf = [((3, 1, 1), 2, E3N, "none+rich"), ((2, 2, 1), 3, E3N, "none+rich"), ((3, 2, 1), 1, E3N, "rich")]
@@ -794,8 +817,10 @@ def run(ctx):
     cg.selftest()
     _SPACES = _spaces(ctx.tier)
     if any(sp["engine"] for sp in _SPACES):
-        from mc import eng
-        eng.so_path("plain")            # build once in the parent (content-hash cached), workers only load it
+        try:
+            _engine()                   # build + load once in the parent; the forked workers inherit it
+        except _NoEngine as e:
+            ctx.violation("C16:checker:engine-unavailable", str(e), {"sub": "ident"})
     jobs = []
     for i, sp in enumerate(_SPACES):
         for lo, hi in pool.chunks(sp["size"], CHUNK[sp["sub"]]):
